@@ -153,7 +153,7 @@ void h_zck_get_missing_range(void) {
     bool got = r != NULL;
     if(r != NULL) {
         check_request(&in, r);
-        V_COVER(r->count == VERIF_N && in.max_ranges == -1);
+        V_COVER(r->count == (VERIF_N + 1) / 2 && in.max_ranges == -1);     /* as many separate ranges as the table allows */
         V_COVER(r->count == 1 && r->index.count == VERIF_N);                 /* everything merged into one range */
         V_COVER(r->count == 1 && in.max_ranges == 1 && in.nc == VERIF_N && in.valid[VERIF_N - 1] == 0 && r->index.count == 1);   /* limit cut the request short */
         V_COVER(r->count == 0 && in.nc == VERIF_N);
